@@ -38,7 +38,7 @@ func axisPoint(t *rapid.T, label string, lo, hi float64) (float64, int, string) 
 	case 2:
 		x, name = g.Ulp(lo, rapid.SampledFrom([]int{-1, 1}).Draw(t, label+".u")), "min-ulp"
 	case 3, 4:
-		x, name = lo+rapid.Float64Range(0, 1).Draw(t, label+".f")*span, "within"
+		x, name = lo+g.F(0, 1).Draw(t, label+".f")*span, "within"
 	case 5:
 		x, name = hi, "at-max"
 	case 6:
@@ -222,7 +222,7 @@ func drawLeaf(t *rapid.T, label string, S float64) (sdf.SDF2, string) {
 		w, h := size(".w"), size(".h")
 		rd := 0.0
 		if rapid.Bool().Draw(t, label+".rounded") {
-			rd = rapid.Float64Range(0, 1).Draw(t, label+".rd") * math.Min(w, h) / 2
+			rd = g.F(0, 1).Draw(t, label+".rd") * math.Min(w, h) / 2
 		}
 		return sdf.Box2D(v2.Vec{X: w, Y: h}, rd), fmt.Sprintf("box(%s,%s,r%s)", ev.F(w), ev.F(h), ev.F(rd))
 	case 2:
@@ -296,12 +296,12 @@ func TestUnionPruned(t *testing.T) {
 			switch rapid.IntRange(0, 4).Draw(t, lbl+".kind") {
 			case 0: // generic in the enlarged box
 				c, h := bb.Center(), bb.Size().MulScalar(1.5)
-				p = v2.Vec{X: c.X + rapid.Float64Range(-1, 1).Draw(t, lbl+".x")*h.X, Y: c.Y + rapid.Float64Range(-1, 1).Draw(t, lbl+".y")*h.Y}
+				p = v2.Vec{X: c.X + g.F(-1, 1).Draw(t, lbl+".x")*h.X, Y: c.Y + g.F(-1, 1).Draw(t, lbl+".y")*h.Y}
 			case 1: // near / inside an operand
 				i := rapid.IntRange(0, n-1).Draw(t, lbl+".op")
 				ob := ops[i].BoundingBox()
 				h := ob.Size()
-				p = v2.Vec{X: centres[i].X + rapid.Float64Range(-1, 1).Draw(t, lbl+".x")*h.X, Y: centres[i].Y + rapid.Float64Range(-1, 1).Draw(t, lbl+".y")*h.Y}
+				p = v2.Vec{X: centres[i].X + g.F(-1, 1).Draw(t, lbl+".x")*h.X, Y: centres[i].Y + g.F(-1, 1).Draw(t, lbl+".y")*h.Y}
 			case 2: // on a corner / edge of an operand box
 				i := rapid.IntRange(0, n-1).Draw(t, lbl+".op")
 				ob := ops[i].BoundingBox()
@@ -311,11 +311,11 @@ func TestUnionPruned(t *testing.T) {
 			case 3: // between two operands
 				i := rapid.IntRange(0, n-1).Draw(t, lbl+".i")
 				k := rapid.IntRange(0, n-1).Draw(t, lbl+".j")
-				f := rapid.Float64Range(0, 1).Draw(t, lbl+".f")
+				f := g.F(0, 1).Draw(t, lbl+".f")
 				p = centres[i].MulScalar(1 - f).Add(centres[k].MulScalar(f))
 			default: // far away
 				c, h := bb.Center(), bb.Size().MulScalar(20)
-				p = v2.Vec{X: c.X + rapid.Float64Range(-1, 1).Draw(t, lbl+".x")*h.X, Y: c.Y + rapid.Float64Range(-1, 1).Draw(t, lbl+".y")*h.Y}
+				p = v2.Vec{X: c.X + g.F(-1, 1).Draw(t, lbl+".x")*h.X, Y: c.Y + g.F(-1, 1).Draw(t, lbl+".y")*h.Y}
 			}
 			for i := range counts {
 				counts[i] = 0
